@@ -17,7 +17,7 @@ import area_mem
 
 LIB = ["varintTagged.c", "varintExternal.c", "varintDelta.c", "varintFOR.c", "varintPFOR.c", "varintGroup.c",
        "varintDict.c", "varintRLE.c", "varintElias.c", "varintBP128.c", "varintAdaptive.c", "varintBitmap.c",
-       "varintFloat.c"]
+       "varintFloat.c", "varintExternalBigEndian.c", "varintChained.c", "varintChainedSimple.c"]
 BUILD = dict(extra_flags=["-std=gnu11"] + vlib.SHIM_LD, extra_src=["allocshim.c"])
 NSH = 8
 
@@ -54,6 +54,10 @@ def run(pid, tier):
         path = os.path.join(work, "scheds.txt")
         with open(path, "w") as f:
             f.write("\n".join(sorted(scheds)) + "\n")
+        # boundary domain of the scalar families (ScalarGen.tla) for the scalar call classes
+        import area_scalar
+        svals, rs = area_scalar.gen_values(work, 40)
+        model.add("ScalarGen", rs)
         tiers = ["pinned", "debug"]
         parts = {}
         cmds = []
@@ -65,8 +69,9 @@ def run(pid, tier):
                     parts.setdefault((t, s), []).append(out)
                     cmds.append([drv, path, str(s), str(NSH), proc, out])
         # process B runs with a different environment size / seed for the free details
-        vlib.run_many([c for c in cmds if c[4] == "A"], env={"VERIF_SEED": vlib.SEED})
-        vlib.run_many([c for c in cmds if c[4] == "B"], env={"VERIF_SEED": vlib.SEED + 17, "VERIF_PAD": "x" * 3000})
+        vlib.run_many([c for c in cmds if c[4] == "A"], env={"VERIF_SEED": vlib.SEED, "VERIF_SCALAR_VALUES": svals})
+        vlib.run_many([c for c in cmds if c[4] == "B"], env={"VERIF_SEED": vlib.SEED + 17, "VERIF_PAD": "x" * 3000,
+                                                                 "VERIF_SCALAR_VALUES": svals})
         uninit = []
         if tier == "thorough":
             drv = vlib.build_driver("drv_purity", "debug", LIB, **BUILD)
